@@ -35,6 +35,10 @@ Round 10: `require` adds the facts about owners (exactly one None => they differ
 setter rejects inside a while loop; _find_root / _collect_subtree may be Task methods (c05_util.id_helpers); a flag loop
 (`if ..: clash = True`) is the search loop; the generator behind _collect_subtree is a collector name; WBS[id] through an id -> member
 dict needs TypeError translated as well as KeyError.
+Round 11: the id test may be a private static method of Task (c05_util.id_test_func; taskrules.canon_atom reads `Task.__f(a, b)` as the
+module helper `_f(a, b)`); a test hoisted into a boolean local inside the id test is followed; the duplicates test must count ids over a
+list reduced to one entry per task OBJECT (a task given twice / with its own descendant is not a clash); re-rooting written as
+`self.parent = self.__wbs._root()` under `parent is None` on a member is the re-rooting (c01.mirror_parent through _MirrorProxy).
 Not decided: a memoised all_children whose invalidation looks complete (UNDECIDED); id tests written with running `picked`
 sets or other idioms the evaluator does not model (UNDECIDED).
 """
